@@ -401,8 +401,17 @@ def _r4(ctx):
     rel, cls = F.rel_cls("rst7")
     w = F.method(ctx, "rst7", "write")
     r = F.method(ctx, "rst7", "_parse")
-    fm = [const(n.value) for n in walk_no_nested(w) if isinstance(n, ast.Assign) and dotted(n.targets[0]) == "fmt" and isinstance(const(n.value), str)]
-    sp = L.spans(L.parse_percent(fm[0] * 2)) if fm else None
+    # the template of one coordinate triple: left operand of `<template> % (x, y, z)` inside the per-atom loop, through locals
+    from ..pyfront import fold_str as _fold
+    fm = []
+    for lp in walk_no_nested(w):
+        if isinstance(lp, ast.For):
+            for n in ast.walk(lp):
+                if isinstance(n, ast.BinOp) and isinstance(n.op, ast.Mod):
+                    t = _fold(w, n.left)
+                    if isinstance(t, str) and "f" in t and t not in fm:
+                        fm.append(t)
+    sp = L.spans(L.parse_percent(fm[0] * 2)) if len(fm) == 1 else None
     if sp is None:
         ctx.undecided("C01-R4", w, rel, cls + ".write", "rst7 format", "fmt string not found")
     else:
